@@ -14,7 +14,7 @@ CASES = {'quick': 20000, 'thorough': 600000}
 PARALLEL = True
 RULE = ('sorter cases: sequences of <=10 add/remove calls on a TopologicalSorter (three constructor flavours: '
         'predicate list, tweens, derivers) over <=8 names + sentinels + absent names, constraints None/name/sentinel/'
-        'list of alternatives, sorted() observed after every call; all insertion orders of small declaration sets; '
+        'list of alternatives, item names incl. near-misses of the reserved names (DOMAIN, PREVIEW, ..SUBDOMAIN.., ..INGRESSION..), sorted() observed after every call; all insertion orders of small declaration sets; '
         'configurator cases: add_tween HISTORIES (adds/re-adds interleaved with implicit() and requests through freshly '
         'made apps, with/without pyramid.tweens, autocommit or commit after each add), add_view_deriver, and '
         'add_view/route/subscriber_predicate with weighs_more_than/weighs_less_than hints, with a real request through '
@@ -61,7 +61,8 @@ PROOF_TIMEOUT = 1500
 NAMES = list('abcdefgh')
 ABSENT = ['x', 'y']
 FIRST_T, LAST_T = facts18.SENT['FIRST'], facts18.SENT['LAST']
-TW = ['harness.c18.tw.t%d' % i for i in range(6)]
+from . import tw as _twmod
+TW = list(_twmod.NAMES)       # the last two contain 'MAIN' / 'INGRESS' as substrings (near-misses of the sentinels)
 EXCVIEW = 'pyramid.tweens.excview_tween_factory'
 
 _facts_cache = {}
@@ -108,6 +109,8 @@ def gen_sorter(rng):
     cfg = rng.choice([0, 0, 1, 2])
     n = rng.choice([2, 3, 3, 4, 4, 5, 6, 8])
     names = NAMES[:n]
+    if cfg > 0 and rng.random() < 0.3:                      # names that contain a sentinel of this flavour as a substring
+        names = names[:-1] + [rng.choice(['DOMAIN', 'INGRESSION'] if cfg == 1 else ['PREVIEW', 'INGRESSION'])]
     sent = _sentinels(cfg)
     perm = names[:]
     rng.shuffle(perm)
@@ -193,10 +196,12 @@ def gen_tweens(rng):
     factory), with a look at the order (implicit() or a request through a freshly made app) after every round"""
     k = rng.choice([1, 2, 3, 4, 6])
     live = TW[:max(2, k)]
-    pool = live + ['MAIN', 'INGRESS', EXCVIEW, 'absent.tween']
+    if rng.random() < 0.5:                                  # bring in the names that merely CONTAIN a reserved name
+        live = rng.sample(TW, max(2, min(k, len(TW))))
+    pool = live + ['MAIN', 'INGRESS', EXCVIEW, 'absent.tween', 'absent.MAINTENANCE', 'absent.INGRESSES']
     explicit = []
     if rng.random() < 0.2:
-        explicit = rng.sample(TW[:4] + [EXCVIEW], rng.choice([1, 2, 3]))
+        explicit = rng.sample(TW[:4] + TW[-2:] + [EXCVIEW], rng.choice([1, 2, 3]))
 
     def hint(after):
         r = rng.random()
@@ -286,7 +291,7 @@ def gen_preds(rng):
 
 DV_DEFAULT = ['secured_view', 'csrf_view', 'owrapped_view', 'http_cached_view', 'decorated_view', 'rendered_view',
               'mapped_view']
-DV_USER = ['d0', 'd1', 'd2', 'd3']
+DV_USER = ['d0', 'd1', 'd2', 'd3', 'PREVIEW_d4', 'INGRESSION_d5']   # the last two contain VIEW / INGRESS
 
 
 def gen_derivers(rng):
